@@ -320,6 +320,16 @@ Proof.
   unfold rec_ok; cbn. repeat split; intros; try congruence.
 Qed.
 
+Lemma unsubscribe_inv s id t : Inv s -> Inv (fst (unsubscribe s id t)).
+Proof.
+  intros HI. unfold unsubscribe. destruct (s_conn (get id (sess s))) eqn:Hc; [|exact HI].
+  unfold Inv. cbn [fst sess]. apply lInv_put; [exact HI|].
+  destruct HI as [_ Hok]. specialize (Hok id). destruct Hok as [H1 [H2 [H3 H4]]].
+  assert (Hn : s_conn (get id (sess s)) <> None) by congruence.
+  destruct (H3 Hn) as [Hp [He Hw]].
+  unfold rec_ok; cbn. repeat split; intros; try congruence.
+Qed.
+
 (* ---------- Stop ---------- *)
 
 Definition stop_step (acc : st * list out) (ir : sid * srec) : st * list out :=
@@ -355,6 +365,7 @@ Proof.
   intros HI. destruct e; cbn [step].
   - destruct (stopped s); [exact HI | apply connect_inv; exact HI].
   - apply subscribe_inv; exact HI.
+  - apply unsubscribe_inv; exact HI.
   - apply publish_inv; exact HI.
   - apply publish_by_inv; exact HI.
   - pose proof (publish_inv s tag t HI) as H. destruct (publish s tag t) as [s1 o]. exact H.
@@ -706,6 +717,14 @@ Proof.
     unfold holds at 2 in HP. cbn [s_will] in HP. unfold holds in HP at 1. lia.
 Qed.
 
+Lemma unsubscribe_conserve g s id t : emitted g (snd (unsubscribe s id t)) = 0 /\ held g (sess (fst (unsubscribe s id t))) = held g (sess s).
+Proof.
+  unfold unsubscribe. destruct (s_conn (get id (sess s))) as [c|]; [|split; reflexivity]. cbn [fst snd sess]. split.
+  - reflexivity.
+  - match goal with |- context [put id ?r1 (sess s)] => pose proof (held_put g id r1 (sess s)) as HP end.
+    unfold holds at 2 in HP. cbn [s_will] in HP. unfold holds in HP at 1. lia.
+Qed.
+
 Lemma stop_conserve g s : emitted g (snd (stop s)) + held g (sess (fst (stop s))) <= held g (sess s).
 Proof.
   rewrite stop_unfold.
@@ -726,6 +745,7 @@ Proof.
   destruct e; cbn [step uses].
   - destruct (stopped s); [cbn; lia | apply connect_conserve].
   - destruct (subscribe_conserve g s id k) as [H1 H2]. lia.
+  - destruct (unsubscribe_conserve g s id t) as [H1 H2]. lia.
   - destruct (publish_conserve g s tag t) as [H1 H2]. lia.
   - destruct (publish_by_conserve g (Some id) s tag t) as [H1 H2]. lia.
   - destruct (publish_conserve g s tag t) as [H1 H2]. destruct (publish s tag t) as [s1 o]. cbn [fst snd sess] in *. lia.
@@ -857,6 +877,7 @@ Proof.
   - destruct (stopped s); [destruct Hin|]. right. apply connect_deliver_attached in Hin. destruct Hin as [-> H]. exists id. exact H.
   - left. unfold subscribe in Hin. destruct (s_conn (get id (sess s))) as [c0|] eqn:Hc; [|destruct Hin].
     cbn [snd] in Hin. apply in_map_deliver in Hin. destruct Hin as [t' E]. inversion E; subst. exists id. exact Hc.
+  - exfalso. unfold unsubscribe in Hin. destruct (s_conn (get id (sess s))); destruct Hin.
   - left. destruct (publish_out_attached s tag t0 _ HI Hin) as [c' [E Ha]]. inversion E; subst. exact Ha.
   - left. destruct (publish_by_out_attached (Some id) s tag t0 _ HI Hin) as [c' [E Ha]]. inversion E; subst. exact Ha.
   - left. destruct (publish s tag t0) as [s1 o] eqn:Ep. cbn [snd] in Hin.
